@@ -39,6 +39,15 @@ fn n_callback(vm: &mut Vm<Aux>, f: Value, x: Value) -> Result<Value, ExecutionEr
     vm.get_aux_mut().push(format!("callback -> {t}"));
     Ok(r)
 }
+/// a plain (untyped) host function: pops its own argument — a function value — and calls it with
+/// nothing else pushed
+fn n_papply(vm: &mut Vm<Aux>) -> Result<Value, ExecutionErrorPayload> {
+    let f = vm.stack_pop();
+    let r = vm.run_function(f)?;
+    let t = tok(r);
+    vm.get_aux_mut().push(format!("papply -> {t}"));
+    Ok(r)
+}
 fn n_strlen(_vm: &mut Vm<Aux>, s: &str) -> Result<Value, ExecutionErrorPayload> {
     Ok(Value::Integer(s.len() as i64))
 }
@@ -88,6 +97,7 @@ pub fn new_vm(mem: usize, stack: usize, calls: usize) -> Vm<'static, Aux> {
     vm.register_native_function("three", into_f3(n_three)).unwrap();
     vm.register_native_function("four", into_f4(n_four)).unwrap();
     vm.register_native_function("mktable", into_f1(n_mktable)).unwrap();
+    vm.register_native_function("papply", n_papply).unwrap();
     vm
 }
 
